@@ -123,7 +123,7 @@ CHEMS = {'P': 'P', 'Px': 'P', 'Pm': 'Pm', 'Pmx': 'Pm', 'Q': 'Q', 'R': 'R'}   # p
 SAME_IDS = ['P', 'Pm', 'Px', 'Pmx']                      # same chemical IDs in the same order
 ALL_PK = ['P', 'Q', 'R', 'Pm', 'Px', 'Pmx']
 GAS_SENSITIVE = ['H', 'S', 'h', 'Hnet']                  # what the mixture rules of Px / Pmx change (gas phase)
-EXPLORE = ['xread', 'detached', 'mproxy_ctor', 'mproxy_view', 'datacache']
+EXPLORE = ['xread', 'detached', 'mproxy_ctor', 'mproxy_view', 'datacache', 'stranded']
 
 _PK = {}
 _NAMES = {}
@@ -221,6 +221,7 @@ class Handle:
         self.has_eq = has_eq          # the real object has an `equations` attribute
         self.fetched = set()          # phases whose view object sits in real._streams
         self.detached = set()         # ... and whose containers were replaced since (known finding C14-F2)
+        self.stranded = set()         # ... left on the old flow data by a proxy's _reset_thermo (finding C14-F6)
 
     def names(self):
         return _NAMES[self.pkg]
@@ -375,7 +376,8 @@ def region_of(W, path):
     h = W.h['a'] if k in ('p', 'pv') else W.h[path[1]]
     m = member(W, path)
     xread = int(m is not None and m not in W.consistent)
-    det = int(k in ('v', 'pv') and path[2] in h.detached)     # a proxy shares _streams with its original
+    det = int(k == 'v' and path[2] in h.detached)     # a proxy keeps its own table of phase views (2719672)
+    if k == 'v' and not det and path[2] in h.stranded: det = 2
     kind = 'S' if k in ('v', 'pv') else h.kind
     return f'path={k},kind={kind},parent={h.kind},xread={xread},det={det},dc={int(W.dc_tainted)}'
 
@@ -391,9 +393,7 @@ def get_obj(W, ctx, path):
         if h.kind == 'M': h.fetched.add(path[2])
         return o
     p = W.proxies[path[1]]
-    o = ctx.call('view', lambda: p[path[2]], region=region)
-    W.h['a'].fetched.add(path[2])
-    return o
+    return ctx.call('view', lambda: p[path[2]], region=region)
 
 
 NAMES3 = ('a', 'b', 'c')
@@ -418,10 +418,11 @@ def read_paths(W):
         if n != 'a': out.append(['h', n])
         if h.kind == 'M':
             for p in h.phases:
-                if p not in h.detached or 'detached' in ex: out.append(['v', n, p])
+                if (p not in h.detached or 'detached' in ex) and (p not in h.stranded or 'stranded' in ex):
+                    out.append(['v', n, p])
         elif n != 'a' or ok_member('a'):
             out.append(['v', n, h.ph.val])
-    if a.kind == 'M' and W.proxies and 'mproxy_view' in ex and (a.phases[0] not in a.detached or 'detached' in ex):
+    if a.kind == 'M' and W.proxies and 'mproxy_view' in ex:
         out.append(['pv', 0, a.phases[0]])
     return out
 
@@ -435,7 +436,7 @@ def write_paths(W, single=None):
         if single is None or single == (h.kind == 'S'): out.append(['h', n])
         if h.kind == 'M' and single in (None, True):
             for p in h.phases:
-                if p not in h.detached: out.append(['v', n, p])
+                if p not in h.detached and p not in h.stranded: out.append(['v', n, p])
     for i in range(len(W.proxies)):
         if single is None or single == (a.kind == 'S'): out.append(['p', i])
     return out
@@ -489,7 +490,7 @@ def ghosts(h):
 
 def views_relinked(h):
     """link_with / unlink / _reset_thermo re-link every cached view (they raise when a ghost is among them)."""
-    if h.kind == 'M': h.detached = set()
+    if h.kind == 'M': h.detached = set(); h.stranded = set()
 
 
 def shares_pair(x, y):
@@ -999,7 +1000,7 @@ def op_phases(ch, W, ctx):
         rows = {p: {} for p in new}
         rows[h.ph.val] = dict(h.vec())
         h.kind = 'M'; h.phases = list(new); h.flow = Flow(rows); h.ph = None
-        h.fetched = set(); h.detached = set(); new_dc(h)
+        h.fetched = set(); h.detached = set(); h.stranded = set(); new_dc(h)
     else:
         nonempty = [p for p in h.phases if any(h.vec(p).values())]
         to = ch.choice('phs.to', ['M', 'M', 'S.phase', 'S.phases'])
@@ -1018,6 +1019,7 @@ def op_phases(ch, W, ctx):
             rows = {p: dict(h.vec(p)) if p in h.phases else {} for p in new}
             h.phases = list(new); h.flow = Flow(rows); new_dc(h)
             h.detached = set(h.fetched)      # the views cached in _streams keep the old containers (finding F2)
+            h.stranded = set()
             cache_reset(W, h)
         else:
             ph = ch.choice('phs.phase', PHASES)
@@ -1030,7 +1032,7 @@ def op_phases(ch, W, ctx):
             for p in h.phases:
                 for n, v in h.vec(p).items(): vec[n] = vec.get(n, 0.) + v
             h.kind = 'S'; h.phases = None; h.flow = Flow({'': vec}); h.ph = Ph(ph)
-            h.fetched = set(); h.detached = set(); new_dc(h)
+            h.fetched = set(); h.detached = set(); h.stranded = set(); new_dc(h)
     if hn == 'a': drop_proxies(W, ctx, 'phases')
     mutated(W, W.trace[-1])
 
@@ -1164,7 +1166,7 @@ def op_copy_like(ch, W, ctx):
     if recv.kind == 'S' and st['kind'] == 'M':
         recv.kind = 'M'; recv.phases = sorted(st['phases']); recv.ph = None
         recv.flow = Flow({p: dict(st['rows'][p]) for p in recv.phases})
-        recv.fetched = set(); recv.detached = set(); new_dc(recv)
+        recv.fetched = set(); recv.detached = set(); recv.stranded = set(); new_dc(recv)
         if hn == 'a': drop_proxies(W, ctx, 'copy_like-kind-change')
     else:
         for p in recv.flow.rows: recv.flow.rows[p].clear()
@@ -1315,7 +1317,7 @@ def op_copy_replace(ch, W, ctx):
     if h.ph is not None: h.ph = h.ph.copy()
     for r in h.flow.rows.values():
         for n in [n for n, v in r.items() if not v]: del r[n]
-    h.fetched = set(); h.detached = set(); h.has_eq = True
+    h.fetched = set(); h.detached = set(); h.stranded = set(); h.has_eq = True
     drop_proxies(W, ctx, 'copy')
     cache_reset(W, h)
     W.lastread = {k: v for k, v in W.lastread.items() if not k[0].startswith(('ha', 'va', 'p'))}
@@ -1424,6 +1426,9 @@ def switch_pkg(W, ctx, h, pkg):
         W.consistent = {'a'} | {f'p{i}' for i in range(len(W.proxies))}
         W.mut_since_read = False
     h.pkg = pkg; new_dc(h); views_relinked(h)
+    if h.name == 'a' and W.proxies and h.kind == 'M':
+        # every proxy re-indexes the shared indexer once more: the views `a` handed out stay on the previous data (F6)
+        h.stranded = set(h.fetched)
     for r in h.flow.rows.values():
         for n in [n for n, v in r.items() if not v]: del r[n]
 
